@@ -36,6 +36,7 @@ def main(argv=None) -> int:
         return core.EXIT_HARNESS
     prop = get_prop(args.prop)
     sys.setrecursionlimit(1000)
+    core.quiet_logs()
 
     if args.replay:
         return core.replay_file(prop, args.replay, verbose=not args.quiet)
